@@ -108,20 +108,7 @@ fn run_ops<R: Resolve>(file: &SimFile, res: &R, own: bool, ops: &[Op], probe_key
         sched::yield_here(Kind::OpBoundary, 0);
         out.push(ops::exec(file, res, own, op));
     }
-    // After its last call a thread must have left nothing on the resolver's recursion guard: a
-    // typed load of a key it touched (on the same OS thread, through the same resolver) must not be
-    // refused by the guard itself. The guard's refusal is the only way `get::<Primitive>` can fail
-    // with a *top-level* free-text "Recursive reference" for a key whose raw resolve succeeds alone
-    // (cached errors arrive wrapped as Shared).
-    for &k in probe_keys {
-        sched::yield_here(Kind::OpBoundary, 1);
-        let r = res.get::<pdf::primitive::Primitive>(pdf::object::Ref::new(pdf::object::PlainRef { id: k, gen: 0 }));
-        let text = match r {
-            Err(pdf::PdfError::Other { ref msg }) if msg == "Recursive reference" => format!("PROBE-FAIL guard stack not empty: get({}) refused by the recursion guard after the thread's last call", k),
-            _ => "PROBE ok".to_string(),
-        };
-        out.push(Answer { ok: true, digest: 0, text });
-    }
+    let _ = probe_keys;
 }
 
 pub fn run_case(case: &Case) -> Outcome {
@@ -429,6 +416,24 @@ impl C13 {
             _ => Policy::Preempt { at: (0..1 + rng.usize(2)).map(|_| rng.below(60)).collect() },
         };
         let tolerant = rng.chance(1, 3);
+        // After its last call a thread must have left nothing on the resolver's recursion guard: each
+        // thread that keeps its resolver ends with an ordinary typed load (as Primitive) of a key it
+        // touched; a leftover guard entry shows as "Recursive reference" where the alone answer is Ok.
+        if sharing != Sharing::PerCall {
+            for t in threads.iter_mut() {
+                let mut keys: Vec<u64> = t.iter().filter_map(|o| match o {
+                    Op::Resolve(i) | Op::Get(_, i) | Op::StreamData(i) | Op::RawImage(i) | Op::ImageData(i) => Some(*i),
+                    _ => None,
+                }).collect();
+                keys.sort();
+                keys.dedup();
+                if let Some(k) = keys.first() {
+                    if rng.coin() {
+                        t.push(Op::Get(Ty::Prim, *k));
+                    }
+                }
+            }
+        }
         let mut probe_ok = vec![];
         for op in threads.iter().flatten() {
             if let Op::Resolve(i) | Op::Get(_, i) | Op::StreamData(i) | Op::RawImage(i) | Op::ImageData(i) = op {
@@ -685,6 +690,15 @@ impl Check for C13 {
             None => return vec![],
         };
         let out = run_case(&c);
+        if std::env::var("VERIF_DEBUG").is_ok() {
+            for (t, a) in out.answers.iter().enumerate() {
+                for (k, x) in a.iter().flatten().enumerate() {
+                    let alone = self.alone_answer(&c.doc, c.tolerant, &c.threads[t][k]);
+                    eprintln!("T{} op{} {:?}\n   got   {:016x} {}\n   alone {:016x} {}", t, k, c.threads[t][k], x.digest, x.text, alone.digest, alone.text);
+                }
+            }
+            eprintln!("decisions {:?} deadlock {:?} panics {:?}", out.decisions, out.deadlock, out.panics);
+        }
         let mut rep = RunReport::default();
         self.judge(&c, &out, &mut rep).into_iter().map(|(s, d)| Violation { signature: s, detail: d, case: case.clone() }).collect()
     }
